@@ -19,24 +19,23 @@ vars == <<i, bad>>
 
 SampleIdx(n) == { k \in 1..n : k <= 40 \/ k > n - 40 \/ k % 997 = 0 \/ k % 1000 \in {7, 8} }
 
-AcceptFull(ev) ==
-  /\ WellFormedPack(ev.bytes)
-  /\ RefParsePack(ev.bytes) = [ok |-> TRUE, v |-> ev.value]
-  /\ ExactImage(ev.bytes, ev.value)
-AcceptSampled(ev) ==
-  /\ WellFormedPack(ev.bytes)
-  /\ CountOf(ev.bytes) = Len(ev.value)
-  /\ \A k \in SampleIdx(Len(ev.value)) :
-        ParsedEntry(ev.bytes, k) = ev.value[k] /\ EntrySizeOf(ev.bytes, k) = Len(BodyOf(ev.value[k]))
-Accept(ev) ==
-  /\ ev.ser = "ok"
-  /\ IF ev.mode = "full" THEN AcceptFull(ev) ELSE AcceptSampled(ev)
-  /\ ev.parsed = [ok |-> TRUE, v |-> ev.value]
+Check(ev, what) ==
+  CASE what = "well-formed" -> WellFormedPack(ev.bytes)
+    [] what = "ref-reader"  -> IF ev.mode = "full" THEN RefParsePack(ev.bytes) = [ok |-> TRUE, v |-> ev.value]
+                               ELSE CountOf(ev.bytes) = Len(ev.value)
+    [] what = "exact"       -> /\ WellFormedPack(ev.bytes) /\ CountOf(ev.bytes) = Len(ev.value)
+                               /\ \A k \in (IF ev.mode = "full" THEN 1..Len(ev.value) ELSE SampleIdx(Len(ev.value))) :
+                                     ParsedEntry(ev.bytes, k) = ev.value[k] /\ EntrySizeOf(ev.bytes, k) = Len(BodyOf(ev.value[k]))
+    [] what = "parsed"      -> ev.parsed = [ok |-> TRUE, v |-> ev.value]
+\* the conjuncts an event failed (<<>> = accepted)
+Failed(ev) ==
+  IF ev.ser # "ok" THEN <<"serialize">>
+  ELSE SelectSeq(<<"well-formed", "ref-reader", "exact", "parsed">>, LAMBDA w : ~Check(ev, w))
 
 Init == i = 1 /\ bad = <<>>
 Next == /\ i <= Len(Rec)
         /\ i' = i + 1
-        /\ bad' = IF Accept(Rec[i]) THEN bad ELSE Append(bad, i)
+        /\ bad' = IF Failed(Rec[i]) = <<>> THEN bad ELSE Append(bad, [i |-> i, why |-> Failed(Rec[i])])
 Spec == Init /\ [][Next]_vars
 
 Report == (i = Len(Rec) + 1) => PrintT("R " \o ToJson([n |-> Len(Rec), bad |-> bad]))
